@@ -211,7 +211,8 @@ def stmt_text(node, al=None):
 
 
 def calls_in(node, include_nested_defs=False):
-    """All ast.Call nodes under `node` in source order (by position)."""
+    """All ast.Call nodes under `node` in evaluation order (post-order: a
+    call's receiver and arguments come before the call itself)."""
     out = []
 
     def rec(x):
@@ -227,7 +228,6 @@ def calls_in(node, include_nested_defs=False):
         out.append(node)
     else:
         rec(node)
-    out.sort(key=lambda c: (getattr(c, "lineno", 0), getattr(c, "col_offset", 0)))
     return out
 
 
@@ -253,3 +253,47 @@ def own_nodes(stmt):
     """The expression(s) a CFG node evaluates itself (for compound statements
     only the header, never the nested bodies)."""
     return stmt
+
+
+# --------------------------------------------------------------- definitions
+_def_cache = {}
+
+
+def definitions(funcnode):
+    """local name -> its defining value node, for names bound exactly once by a
+    plain assignment (any right-hand side)."""
+    r = _def_cache.get(id(funcnode))
+    if r is None or r[0] is not funcnode:
+        d = {}
+        for name, vals in assigned_names(funcnode).items():
+            if len(vals) == 1 and vals[0] is not None:
+                d[name] = vals[0]
+        r = (funcnode, d)
+        _def_cache[id(funcnode)] = r
+    return r[1]
+
+
+def inline_defs(expr, funcnode, depth=5):
+    """Substitute single-assignment locals by their defining expressions,
+    recursively (bounded)."""
+    d = definitions(funcnode)
+    e = expr
+    for _ in range(depth):
+        names = set(n.id for n in ast.walk(e) if isinstance(n, ast.Name) and isinstance(n.ctx, ast.Load))
+        sub = {k: d[k] for k in names if k in d}
+        if not sub:
+            break
+        e = substitute(e, sub)
+    return e
+
+
+def deep_canon(expr, funcnode):
+    return canon(inline_defs(expr, funcnode))
+
+
+def names_in(expr):
+    return set(n.id for n in ast.walk(expr) if isinstance(n, ast.Name))
+
+
+def parse_expr(text):
+    return ast.parse(text, mode="eval").body
